@@ -150,6 +150,9 @@ pub struct GenCfg {
     pub f_batch_unawaited: bool,
     /// every third generated name is more than 100 bytes long
     pub f_long_names: bool,
+    /// the program hands the resolve function of one of its promises to the host (in an order
+    /// payload); the host settles the promise later by CALLING that function
+    pub f_host_resolver: bool,
 }
 
 impl GenCfg {
@@ -185,6 +188,7 @@ impl GenCfg {
             f_batch_orders: on(0.6),
             f_batch_unawaited: false,
             f_long_names: on(0.15),
+            f_host_resolver: on(0.5),
         }
     }
 }
@@ -284,9 +288,9 @@ pub const SHOW_PRELUDE: &str = r#"function __show(v: any, d: number = 0, seen: a
 pub fn hole_prelude(variant: HoleVariant, answers: &BTreeMap<String, Answer>) -> String {
     match variant {
         HoleVariant::Order => {
-            "import { order } from \"tsrun:host\";\nconst __h = (k: number): any => order({ k: k });\nconst __hm: any = order;".to_string()
+            "import { order } from \"tsrun:host\";\nconst __h = (k: number): any => order({ k: k });\nconst __hm: any = order;\nconst __hr = (p: any): any => order(p);".to_string()
         }
-        HoleVariant::OrderDirect => "import { order as __h } from \"tsrun:host\";\nconst __hm: any = __h;".to_string(),
+        HoleVariant::OrderDirect => "import { order as __h } from \"tsrun:host\";\nconst __hm: any = __h;\nconst __hr: any = __h;".to_string(),
         HoleVariant::Sync | HoleVariant::Promise => {
             // table-driven stub: identical data, no suspension
             let mut s = String::from("const __h = (k: number): any => {\n  switch (k) {\n");
@@ -310,7 +314,7 @@ pub fn hole_prelude(variant: HoleVariant, answers: &BTreeMap<String, Answer>) ->
                 };
                 s.push_str(&format!("    case {}: {}\n", k, arm));
             }
-            s.push_str("    default: return null;\n  }\n};\nconst __hm = (p: any): any => __h(p.k);");
+            s.push_str("    default: return null;\n  }\n};\nconst __hm = (p: any): any => __h(p.k);\nconst __hr = (p: any): any => { p.resolve(p.k * 10 + 2); return null; };");
             s
         }
     }
@@ -1770,6 +1774,21 @@ impl<'a> Gen<'a> {
                     };
                     self.declare(&nn, Ty::Str, true);
                     return Node::leaf(format!("const {b}: any[] = [{}].map(__hm);{junk} {tail}", lits.join(", ")));
+                }
+                97 if self.in_async && self.holes_left > 0 && self.cfg.f_host_resolver => {
+                    self.holes_left -= 1;
+                    self.hole_id += 1;
+                    let k = self.hole_id;
+                    self.answers.insert(k.to_string(), Answer::Value(serde_json::Value::Null));
+                    self.tag("host-called-resolver");
+                    let r = self.fresh("rs");
+                    let p = self.fresh("pr");
+                    let n = self.fresh("n");
+                    self.declare(&n, Ty::Num, true);
+                    let mid = if self.rng.chance(0.5) { format!(" __log.push(\"told:\" + String({p} instanceof Promise));") } else { String::new() };
+                    return Node::leaf(format!(
+                        "let {r}: any; const {p}: any = new Promise((res: any) => {{ {r} = res; }}); await __hr({{ k: {k}, resolve: {r} }});{mid} let {n}: any = await {p};"
+                    ));
                 }
                 92 if self.cfg.f_symbol => {
                     // symbols kept in variables: identity, use as keys, registry
